@@ -56,6 +56,7 @@ type detRun struct {
 	// files published by the flush in flight (since the last switch), per measurement
 	flushFiles map[string]map[string]bool
 	sched      []string
+	untied     bool
 }
 
 func rev(xs []string) []string {
@@ -169,6 +170,11 @@ func (d *detRun) viol(line int, class, desc string) {
 
 func (d *detRun) emit(op, ans string) int {
 	d.step(op)
+	if d.untied && !strings.HasPrefix(op, "note") {
+		// the order of the steps of this history is no longer known (lock-point round in which
+		// the second actor had to wait for the first): nothing more is compared with the model
+		op, ans = "note untied: "+op, "ok"
+	}
 	if d.trace {
 		fmt.Fprintf(os.Stderr, "   op: %-60s -> %s\n", op, ans)
 	}
@@ -184,7 +190,11 @@ func (d *detRun) observe(actor string, locked map[string]bool) {
 			msts = append(msts, ms)
 		}
 	}
-	st := d.sh.ProtocolState(msts)
+	d.observeState(actor, d.sh.ProtocolState(msts), locked)
+}
+
+// observeState: the inference of observe, from a protocol state read elsewhere.
+func (d *detRun) observeState(actor string, st engine.VerifProtocolState, locked map[string]bool) {
 	for _, ms := range detMsts {
 		if locked[ms] {
 			// cannot be looked at now: unchanged since the last observation as far as we know
@@ -234,8 +244,14 @@ func (d *detRun) observe(actor string, locked map[string]bool) {
 			}
 		case actMerge:
 			if len(removedOrd) > 0 || len(addedOrd) > 0 {
+				// the out-of-order files that were merged: the ones the merge has delisted if that is
+				// already visible, else the out-of-order list as it was when the merge started
+				grp := d.mergeGrp[ms]
+				if len(removedOoo) > 0 && len(addedOoo) == 0 {
+					grp = removedOoo
+				}
 				d.emit(fmt.Sprintf("plan %s %s", ms, nameList(removedOrd)), "ok")
-				d.emit(fmt.Sprintf("mergereplace %s %s %s %s", ms, nameList(rev(d.mergeGrp[ms])), nameList(removedOrd), nameList(addedOrd)), "ok")
+				d.emit(fmt.Sprintf("mergereplace %s %s %s %s", ms, nameList(rev(grp)), nameList(removedOrd), nameList(addedOrd)), "ok")
 			}
 			if len(addedOoo) > 0 {
 				d.emit(fmt.Sprintf("plan %s %s", ms, nameList(removedOoo)), "ok")
@@ -813,7 +829,7 @@ func runDetHistory(c *hx.Ctx, r *hx.Rng, idx int) error {
 	}
 	nontrivial := d.readsInFlush > 0 && (d.writesInFlush > 0 || d.readsInReplace > 0)
 	c.Case(fmt.Sprintf("%d:%s", idx, d.kinds.String()), nontrivial)
-	if nontrivial {
+	if nontrivial && len(c.Stats.Samples) < 3 {
 		c.Sample(fmt.Sprintf("history %d ops=%s pause points=%d reads during flush=%d during replace/merge=%d writes during flush=%d long-lived views=%d close mode=%d", idx, d.kinds.String(), d.pausePoints, d.readsInFlush, d.readsInReplace, d.writesInFlush, d.longViews, closeMode))
 	}
 	c.Stats.Hist["pause-points"] += d.pausePoints
